@@ -99,7 +99,7 @@ P('C17', design_ref='7/C17', technique=TECH,
   assumptions=[], not_decided=['round trip with dictionaries', 'assembly match finders'])
 
 P('C18', design_ref='7/C18', technique=TECH + '; bounded stand-ins for canonical-code assignment',
-  level_text='Proof: length/distance symbol conversion and packed tables vs RFC (full domain), are_hufftables_useable covers literal + every length symbol 257..285 + every distance symbol 0..29 within 56 bits, run-length coding validity (write_rl, rl_encode loop contract), dynamic-header field layout (create_huffman_header, create_header), set_hufftables state guard, heapify/build_heap/build_huff_tree memory safety and heap order (<=30 nodes), init_heap*, flatten_ll, constant tables (static = RFC fixed code; default: prefix-free, complete, canonical, header parses to its code lengths). Bounded: canonical code assignment and tree shape on small alphabets. fix_code_lens is not decided.',
+  level_text='Proof: length/distance symbol conversion and packed tables vs RFC (full domain), are_hufftables_useable covers literal + every length symbol 257..285 + every distance symbol 0..29 within 56 bits, run-length coding validity (write_rl, rl_encode loop contract), dynamic-header field layout (create_huffman_header, create_header), set_hufftables state guard, heapify/build_heap/build_huff_tree memory safety and heap order (<=30 nodes), init_heap*, flatten_ll, constant tables (static = RFC fixed code; default: prefix-free, complete, canonical, header parses to its code lengths). Bounded: canonical code assignment and tree shape on small alphabets; gen_huff_code_lens+fix_code_lens, isal_update_histogram_base and isal_create_hufftables(_subset) through the public API only by labelled NATIVE battery stand-ins (CBMC cannot reach them: union encoding), never counted as proof.',
   level_note='Trusted: CBMC+MiniSat. build_huff_tree is assembly on x86 (assumed). Not decided: isal_create_hufftables end to end.',
   assumptions=[], not_decided=['isal_create_hufftables end to end', 'decoder parses header to the same codes'])
 
@@ -109,7 +109,7 @@ P('C01', design_ref='7/C01', technique=TECH,
   assumptions=[], not_decided=['end-to-end round trip', 'assembly kernels'])
 
 P('C02', design_ref='7/C02', technique=TECH,
-  level_text='Component contracts only: bit reader over a logical-stream invariant, read_header (stored branch, BTYPE dispatch), decode_literal_block for every avail_in, canonical code assignment (set_codes), the portable decode loop under abstract symbol decoders (accounting, END_INPUT restore, OUT_OVERFLOW records, look-back both directions), drivers (final input position relative to the callees, decoder always entered with empty pending records); bounded: byte_copy, code-length decoding of dynamic headers, distance/header table builders. The end-to-end statement is NOT decided.',
+  level_text='Component contracts only: bit reader over a logical-stream invariant, read_header (stored branch, BTYPE dispatch), decode_literal_block for every avail_in, canonical code assignment (set_codes), the portable decode loop under abstract symbol decoders (accounting, END_INPUT restore, OUT_OVERFLOW records, look-back both directions), drivers (final input position relative to the callees, decoder always entered with empty pending records); bounded: byte_copy, code-length decoding of dynamic headers (<=4 symbols quick, <=6 thorough), distance/header table builders on enumerated length vectors; the lit/len table builder and the pregenerated static tables only by labelled NATIVE battery stand-ins. The end-to-end statement is NOT decided.',
   level_note='Trusted: CBMC+MiniSat. Not decided: lookup-table construction, decode loop functional correctness, asm decode kernels.',
   assumptions=[], not_decided=['make_inflate_huff_code_*', 'decode loop functional correctness'])
 
@@ -124,7 +124,7 @@ P('C07', design_ref='7/C07', technique=TECH,
   assumptions=[], not_decided=['induction over call histories'])
 
 P('C05', design_ref='7/C05', technique=TECH + '; exact-size is_fresh buffers, frame clauses',
-  level_text='Memory safety of every function under contract: each harness hands the function exactly the bytes its arguments declare (is_fresh of exactly len bytes; exact frames), so one byte read or written outside is a failed pointer/bounds/assigns obligation, for every length including 0; quick tier = representative subset per family, thorough = all harnesses. Streaming drivers: see deflate_driver_mem / inflate_driver_mem where registered.',
+  level_text='Memory safety of every function under contract: each harness hands the function exactly the bytes its arguments declare (is_fresh of exactly len bytes; exact frames), so one byte read or written outside is a failed pointer/bounds/assigns obligation, for every length including 0; quick tier = representative subset per family, thorough = all harnesses. Streaming drivers: isal_deflate (history-buffer copies and pass ranges inside the internal buffer or the CURRENT input chunk, never in front of the entry next_in) and isal_inflate (window copies, decoder ranges, overflow replay) with the passes/decoders as assumed progress contracts.',
   level_note='Trusted: CBMC memory model (no alignment, object-granular). Not decided: assembly kernels, isal_deflate/isal_inflate as wholes, guard-page placement.',
   assumptions=[], not_decided=['assembly kernels', 'whole streaming entry points'])
 
